@@ -133,7 +133,15 @@ func (w *vpWorld) checkNotOverReleased(kind int, policy string, pool string, ip 
 	keptNever := verifAnd(verifOr(policy == "never", pool != ""), supportsNever) // a named pool forces the never policy
 	var keptImmutable bool
 	if kind == vpKindDp {
-		keptImmutable = verifAnd(policy == "immutable", exists && replicas >= 1)
+		// a deployment keeps an IP while it "holds no more IPs than replicas": this one has to stay only if the
+		// addresses the app holds besides it (pods in use + reserve) leave room for it
+		others := int32(0)
+		for _, e := range w.dump() {
+			if e.Allocated && e.IP != ip && strings.HasPrefix(e.Key, "dp_ns_app_") {
+				others++
+			}
+		}
+		keptImmutable = verifAnd(policy == "immutable", exists && others < replicas)
 	} else {
 		keptImmutable = verifAnd(policy == "immutable", supportsImmutable && exists && int32(idx) < replicas)
 	}
